@@ -42,17 +42,20 @@ CFG = dict(
                       "quiescent model state predicts the observation, or encode/decode differ from proto.Marshal/Unmarshal",
                  "2": "the observed history violates the property predicate (Check/C19c.v: round trip, spec_chan, spec_ws, "
                       "spec_http, CHttpRaw = the 400-iff classification, CHttpE2E = written without error and read equal, CAssert 1 = a parked "
-                      "Write ends with its context, CAssert 2 = the channel transport hands over a 1 MiB envelope unchanged)",
+                      "Write ends with its context, CAssert 2 = the channel transport hands over a 1 MiB envelope unchanged, "
+                      "CAssert 3 = Write reports an envelope that the far end refused with 503 / 400: finding http-write-ignores-status)",
                  "3": "a Read/Write whose context is done was still blocked at quiescence (spec_chan_ctx)"},
     rule="wire: every present/absent combination of the 5 sub-messages x ids {0,1,127,128,...,2^63,2^64-1} x bodies {0,1,17,300,"
          "64KiB (thorough: 1MiB)} x empty/ASCII/non-ASCII/NUL/long strings x repeated fields 0..5, invalid UTF-8 in every string "
          "field, ~70 hand-written corners of the wire format, seeded mutations of valid encodings, random bytes; channel: ALL "
          "action sequences of length <= 4 (thorough 5) over {Write, Read (live / cancelled ctx), cancel of any blocked call, close} "
-         "for capacities 0,1,2; WebSocket: every generated envelope written and read, ALL sequences of length <= 3 (thorough 4) "
+         "for capacities 0,1,2, with ticks of the virtual clock (time.Sleep in the bubble = an empty model step) between the actions; WebSocket: every generated envelope written and read, ALL sequences of length <= 3 (thorough 4) "
          "over {Write, text frame, garbage / unusual / invalid binary frames, Read, cancel, break}, seeded random longer ones; HTTP: "
          "every request shape alone and with a waiting reader, ALL sequences of length <= 4 (thorough 5) over {valid posts to two "
          "sources of one address, invalid post, tick, half tick, NewConnection, Read, failing Write, cancel}, seeded random longer "
-         "ones over 3 clock settings incl. Stop and cancelled Writes; end-to-end over loopback HTTP with the envelope generator, every envelope followed by a marker "
+         "ones over 3 clock settings incl. Stop and cancelled Writes; ticks of the bubble's clock (not the cleaner's fake clock) as a further letter "
+         "of the WebSocket and HTTP alphabets and walks; every lock-step scenario runs under guardWedge (a mutex deadlock is reported and attributed "
+         "to the scenario, not a hung rig); end-to-end over loopback HTTP with the envelope generator, every envelope followed by a marker "
          "envelope so that a lost one shows as 'nothing read before the marker' (no timeout decides); THE UPPER END OF THE BODY RANGE in "
          "every tier and every rig (wire, channel, WebSocket with the read limit lifted, HTTP lock-step with and without a waiting reader, "
          "HTTP end to end): bodies of 1 MiB - 4096, 1 MiB - 1, exactly 1 MiB, and 1 MiB inside the largest envelope the property covers "
